@@ -47,6 +47,40 @@ fn drive<E: Engine>(args: &[String]) -> i32 {
 #[global_allocator]
 static GLOBAL: simlib::seams::SimAlloc = simlib::seams::SimAlloc;
 
+fn trace_main(args: &[String]) -> i32 {
+    use simlib::trace::{exec_case, features, gen_case, TraceCase};
+    let out = &mut io::stdout().lock();
+    if let Some(path) = arg(args, "--replay") {
+        let text = std::fs::read_to_string(&path).expect("harness: cannot read replay file");
+        let v: Value = serde_json::from_str(&text).expect("harness: replay file is not JSON");
+        let case = TraceCase::from_json(&v["case"]);
+        let full = args.iter().any(|a| a == "--full");
+        let d = exec_case(&case, full);
+        let _ = writeln!(out, "{}", serde_json::json!({"type": "trace", "features": features(), "d": d}));
+        return 0;
+    }
+    let seed: u64 = arg(args, "--seed").and_then(|s| s.parse().ok()).unwrap_or(1);
+    let from: u64 = arg(args, "--from").and_then(|s| s.parse().ok()).unwrap_or(0);
+    let to: u64 = arg(args, "--to").and_then(|s| s.parse().ok()).unwrap_or(100);
+    let tier = if arg(args, "--tier").as_deref() == Some("thorough") { Tier::Thorough } else { Tier::Quick };
+    let gen_only = args.iter().any(|a| a == "--gen-only");
+    let mut nops = 0u64;
+    for run in from..to {
+        let mut rng = simlib::prng::Rng::split(seed, "trace", run);
+        let case = gen_case(&mut rng, tier);
+        if gen_only {
+            let _ = writeln!(out, "{}", serde_json::json!({"run": run, "case": case.to_json()}));
+            continue;
+        }
+        let d = exec_case(&case, false);
+        nops += d.len() as u64;
+        let kinds: Vec<String> = case.ops.iter().map(|o| format!("{}:{}", o.kind, o.target)).collect();
+        let _ = writeln!(out, "{}", serde_json::json!({"type": "trace", "run": run, "d": d, "k": kinds, "objs": case.map.objects.len()}));
+    }
+    let _ = writeln!(out, "{}", serde_json::json!({"type": "summary", "features": features(), "runs": to - from, "ops": nops}));
+    0
+}
+
 fn main() {
     install_panic_hook();
     let args: Vec<String> = std::env::args().collect();
@@ -56,6 +90,7 @@ fn main() {
         Some("c06") => drive::<C06Engine>(&args),
         Some("c05r") => drive::<C05Real>(&args),
         Some("c05a") => drive::<C05Adv>(&args),
+        Some("trace") => trace_main(&args),
         Some("c02") => drive::<C02Engine>(&args),
         Some("c03") => drive::<C03Engine>(&args),
         Some("c15") => drive::<C15Engine>(&args),
